@@ -106,6 +106,16 @@ SpyTrees ==
     \cup {[ty |-> "str", e |-> Bin("~", l, Filt("upper", r, <<>>))] : l \in StrLeaves \cup IntLeaves, r \in StrLeaves}
     \cup {[ty |-> "int", e |-> Bin(op, l, Filt("length", r, <<>>))] : op \in {"+", "*"}, l \in IntLeaves, r \in StrLeaves}
     \cup {[ty |-> "int", e |-> Bin(op, Filt("length", l, <<>>), r)] : op \in {"+", "*"}, l \in StrLeaves, r \in IntLeaves}
+    \* a sign or "not" applies to its operand together with the operand's index / attribute / filter suffixes
+    \cup {[ty |-> "int", e |-> Un("-", x)] : x \in {Item(Var("l"), LI(1)), Attr(Var("o"), "x"), Filt("abs", LI(5), <<>>), Filt("length", Var("s"), <<>>), Item(Var("o"), LS(<<121>>))}}
+    \cup {[ty |-> "int", e |-> Filt("abs", Un("-", x), <<>>)] : x \in {LI(5), Var("a"), Item(Var("l"), LI(1))}}
+    \cup {[ty |-> "int", e |-> Bin(op, Un("-", Item(Var("l"), LI(0))), Un("-", Filt("abs", Var("b"), <<>>)))] : op \in {"+", "-", "*"}}
+    \cup {[ty |-> "bool", e |-> Un("not", x)] : x \in {Item(Var("l"), LI(0)), Filt("length", Var("s"), <<>>), Filt("length", Lit(VL(<<>>)), <<>>), Attr(Var("o"), "x"),
+                                                        Filt("default", Var("nosuchvar"), <<LB(FALSE)>>)}}
+    \cup {[ty |-> "bool", e |-> Bin("and", Un("not", Filt("length", Lit(VL(<<>>)), <<>>)), Bin("<", Un("-", Item(Var("l"), LI(1))), LI(0)))]}
+    \* a string is equal to itself, whatever it spells
+    \cup {[ty |-> "bool", e |-> Bin(op, LS(<<110, 97, 110>>), r)] : op \in {"==", "!="}, r \in {LS(<<110, 97, 110>>), LS(<<78, 97, 78>>), Var("s")}}
+    \cup {[ty |-> "bool", e |-> Bin("in", LS(<<110, 97, 110>>), Arr(<<LS(<<120>>), LS(<<110, 97, 110>>)>>))]}
     \cup {[ty |-> "int", e |-> Bin(op, Attr(Var("o"), "x"), Item(Var("o"), LS(<<121>>)))] : op \in {"+", "*", "-"}}
     \cup {[ty |-> "int", e |-> Bin(op, Bin(op2, Item(Var("l"), LI(1)), LI(2)), Attr(Var("o"), "x"))] : op \in {"+", "*"}, op2 \in {"+", "*"}}
 
